@@ -706,6 +706,13 @@ def run(ctx) -> None:
         r4_deletion_complete(ctx, hugr_cls, hugr_cls.module.path)
         r6_r7_tables(ctx, hugr_cls, hugr_cls.module.path, only={"links", "add_link"})
     ctx.stats["nf call sites resolved/unresolved"] = [nf.resolved_calls, nf.unresolved_calls]
+    ctx.rule("C02.R10", "the serial models hold what they are given: no model configuration or hook that rewrites values on the way in or out (shared with C05.R7 / C17.R3)", floor=60)
+    from .c17 import r3_no_hidden_acceptance_logic
+    from ..schema import SchemaDeriver
+    d3 = SchemaDeriver(ctx.program, None)
+    d3.canon = ctx.canon
+    with ctx.as_rule(C17_R3="C02.R10"):
+        r3_no_hidden_acceptance_logic(ctx, d3, with_required=False)
     from .. import lints
     lints.arm(ctx)
 
